@@ -3,5 +3,6 @@ EXTENDS Prune
 \* height bands: first level, beyond the second-level threshold (500 000), beyond twice that
 \* (second-level scan enabled), beyond the third-level threshold (1 500 000 above old entries)
 MCHeightsSmall == 1..6
+MCHeightsSmall12 == 1..12
 MCHeightsBands == {1, 2, 3, 500001, 500002, 500003, 1000001, 1000002, 1500003, 1500004, 2000001, 2000002}
 ====
